@@ -562,8 +562,8 @@ func c03RouteMatchers(w *World, r *Report, pa *pipelineAnchors, fa *factoryAncho
 	}
 	fn := fa.createRule
 	r.Analysed(w.FnName(fn))
-	var hostCtor, ppCtor *ssa.Function
-	defer func() { c03GlobDelimiters(w, r, hostCtor, ppCtor) }()
+	var hostCtor, ppCtor, methodsCtor *ssa.Function
+	defer func() { c03GlobDelimiters(w, r, hostCtor, ppCtor); c03MethodsNeverEmptied(w, r, methodsCtor) }()
 	// the route literal: an allocation of a struct with a RouteMatcher field
 	n := 0
 	eachInstr(fn, func(in ssa.Instruction) {
@@ -648,6 +648,7 @@ func c03RouteMatchers(w *World, r *Report, pa *pipelineAnchors, fa *factoryAncho
 					switch {
 					case arg0 != nil && pathEndsWith(arg0, "Matcher", "Methods"):
 						want["methods"] = true
+						methodsCtor = c.Common().StaticCallee()
 					case arg0 != nil && pathEndsWith(arg0, "Matcher", "Hosts"):
 						want["hosts"] = true
 						hostCtor = c.Common().StaticCallee()
